@@ -1,3 +1,10 @@
 module verifharness
 
 go 1.23.0
+
+require golang.org/x/tools v0.33.0
+
+require (
+	golang.org/x/mod v0.24.0 // indirect
+	golang.org/x/sync v0.14.0 // indirect
+)
